@@ -160,7 +160,14 @@ def specStep (sh : Shadow) (o : Proto.Op) : Except String Shadow := do
       | _ => throw s!"report({p}) not understood"
       pure sh
     | _ => throw "bad-op")
-  if o.op != ["setup"] && o.op != ["skip"] then checkTotals sh' obs
+  if o.op != ["setup"] && o.op != ["skip"] then
+    checkTotals sh' obs
+    -- getCurrentAllocationNumber(): one more than the number of allocations / reallocations that returned memory
+    match obs.find? (fun l => l.head? == some "allocnum") with
+    | some [_, n] =>
+      if n.toNat? != some sh'.nextNum then
+        throw s!"the next allocation number is {n} after {sh'.nextNum - 1} successful allocations"
+    | _ => throw "no allocnum line"
   return sh'
 
 def specAll (ops : List Proto.Op) : Option String :=
